@@ -83,3 +83,113 @@ Theorem C13_model_meets_monitor : forall (cf:config) (m:mech) (mc:mcfg) (cc:ccfg
   consistent mc cf -> consistent_cc cc cf m -> well_formed_history ops -> wf_apps ops -> verdicts_true 13 (run_mon mc cc (init cf m) (mall0 cc) ops).
 Proof. exact AgentMeets2.model_meets_C13. Qed.
 Print Assumptions C13_model_meets_monitor.
+
+(* ---- BYTE level (Agent/Concrete.v, Proofs/ConcreteProofs.v). `craft_packet class method txid attrs` renders an abstract packet
+   of the model to bytes through the steps of the MessageEncoder::encode model; suite absglue compares it on every run with
+   the bytes the implementation's encoder produced for the packets the client emitted. *)
+From Rustun Require Import Base.Tlv Codec.EncodeInto Codec.InputText Codec.EncodeMsg Codec.Wire Codec.WireFull Agent.AbsGlue Agent.Concrete
+  Proofs.ConcreteProofs.
+
+(* the rendering in closed form: header ++ TLVs, every MAC / CRC computed over the header (length up to the end of its own
+   attribute) ++ the TLVs before it; and it is what the encoder model writes into ANY buffer that is large enough *)
+Theorem C13_bytes_closed_form : forall class method txid attrs, length txid = 12%nat -> size_ok attrs = true ->
+  craft_packet class method txid attrs = Ok (packet_bytes (msg_type_of method class) txid attrs).
+Proof. exact ConcreteProofs.craft_packet_closed. Qed.
+Print Assumptions C13_bytes_closed_form.
+Theorem C13_bytes_are_encoder_output : forall buf typ txid attrs, length txid = 12%nat -> size_ok attrs = true ->
+  forallb (fun a => negb (is_corrupt a)) attrs = true -> craft_needed attrs <= len buf ->
+  encode_msg buf typ txid (map craft_e attrs) = Ok (packet_bytes typ txid attrs ++ drop (craft_needed attrs) buf, craft_needed attrs).
+Proof. exact ConcreteProofs.encode_msg_packet_bytes. Qed.
+Print Assumptions C13_bytes_are_encoder_output.
+
+(* abs_craft: the reader of the harness glue, as a Gallina function, reads the rendering of a well-formed abstract packet
+   (tokens inside the vocabulary, keys among the candidates, sizes within 16 bits) back as the same abstract packet, provided
+   no candidate key tried EARLIER yields the same HMAC over the same text (a boolean over the concrete packet) *)
+Theorem C13_abs_craft : forall realms class method txid attrs,
+  class < 4 -> method < 4096 -> length txid = 12%nat ->
+  attrs_ok realms attrs = true -> size_ok attrs = true ->
+  no_collision realms class method txid attrs = true ->
+  exists b, craft_packet class method txid attrs = Ok b /\ abs_packet realms b = Some (class, method, attrs).
+Proof. exact ConcreteProofs.abs_craft. Qed.
+Print Assumptions C13_abs_craft.
+Example C13_no_collision_holds : no_collision [1] 0 1 ex_txid ex_attrs = true.
+Proof. exact ConcreteProofs.ex_no_collision. Qed.
+
+(* craft_decodes: a rendered packet whose integrity / fingerprint attributes are the final ones decodes with the byte-level
+   decoder model (any instance `dec_ok` of the typed decoders that accepts its values): the whole length is consumed, every
+   attribute is returned; and WITH validation under the key its integrity attributes were produced with *)
+Theorem C13_craft_decodes : forall dec_ok class method txid attrs,
+  class < 4 -> method < 4096 -> length txid = 12%nat ->
+  size_ok attrs = true -> tail_ok attrs = true -> plain_apps attrs = true ->
+  let typ := msg_type_of method class in
+  let b := packet_bytes typ txid attrs in
+  typed_accept dec_ok false (take 20 b) (final_tlvs typ txid [] attrs) = true ->
+  craft_packet class method txid attrs = Ok b
+  /\ decode dec_ok None b = WOk (len b) (positions 0 (length attrs))
+  /\ (forall k, keys_are k attrs = true -> forallb (fun a => negb (is_corrupt a)) attrs = true ->
+      decode dec_ok (Some (validating (key_bytes k))) b = WOk (len b) (positions 0 (length attrs))).
+Proof. exact ConcreteProofs.craft_decodes. Qed.
+Print Assumptions C13_craft_decodes.
+
+(* client_packet_bytes: for every client state, credential mechanism and application list, the packet `prepare` produces,
+   rendered to bytes: is the encoder model's output; decodes (all attributes, whole length); decodes WITH validation under
+   the key of its integrity attributes — "each verifying under the configured credentials" at byte level, the key being the
+   configured one by the two theorems that follow; with fingerprints configured it ends in a FINGERPRINT that carries the
+   CRC-32 of everything before it (InputText.encode_with_fp, the form C10_accepts_own speaks of) *)
+Theorem C13_client_packet_bytes : forall dec_ok c is_request app x class method txid,
+  app_wf app -> prepare c is_request app = inl (Some x) ->
+  class < 4 -> method < 4096 -> length txid = 12%nat -> size_ok (flatten x) = true ->
+  let typ := msg_type_of method class in
+  let b := packet_bytes typ txid (flatten x) in
+  typed_accept dec_ok false (take 20 b) (final_tlvs typ txid [] (flatten x)) = true ->
+  craft_packet class method txid (flatten x) = Ok b
+  /\ (forallb (fun a => negb (is_corrupt a)) (flatten x) = true -> encode_packet class method txid (flatten x) = Ok b)
+  /\ decode dec_ok None b = WOk (len b) (positions 0 (length (flatten x)))
+  /\ (forall k, keys_are k (flatten x) = true -> forallb (fun a => negb (is_corrupt a)) (flatten x) = true ->
+      decode dec_ok (Some (validating (key_bytes k))) b = WOk (len b) (positions 0 (length (flatten x))))
+  /\ (use_fp (cfg c) = true -> exists pre, flatten x = pre ++ [AFP true] /\ b = encode_with_fp typ txid (final_tlvs typ txid [] pre)).
+Proof. exact ConcreteProofs.client_packet_bytes. Qed.
+Print Assumptions C13_client_packet_bytes.
+Theorem C13_client_keys_st : forall c s is_request app x, mech_ c = MST s -> prepare c is_request app = inl (Some x) ->
+  keys_are (KST 0) (flatten x) = true.
+Proof. exact ConcreteProofs.client_keys_st. Qed.
+Theorem C13_client_keys_lt : forall c s p app x, mech_ c = MLT s -> lt_pr s = Some p -> keyd_eqb (p_key p) (p_key p) = true ->
+  prepare c true app = inl (Some x) -> keys_are (p_key p) (flatten x) = true.
+Proof. exact ConcreteProofs.client_keys_lt. Qed.
+Theorem C13_client_clean : forall c is_request app x, prepare c is_request app = inl (Some x) ->
+  forallb (fun a => negb (is_corrupt a)) app = true ->
+  (forall s p, mech_ c = MLT s -> lt_pr s = Some p -> p_key p <> KCorrupt) ->
+  forallb (fun a => negb (is_corrupt a)) (flatten x) = true.
+Proof. exact ConcreteProofs.client_clean. Qed.
+Print Assumptions C13_client_keys_st.
+Print Assumptions C13_client_keys_lt.
+Print Assumptions C13_client_clean.
+
+(* non-vacuity, by computation: a long-term request with fingerprint as `prepare` produces it decodes and validates under the
+   long-term key with the FULL instance of the typed decoders (all 38 kinds of Codec/AttrValue.v) *)
+Example C13_client_packet_example :
+  let b := packet_bytes (msg_type_of 1 0) ex_txid ex_attrs in
+  decode dec_ok_full (Some (validating (key_bytes (KLT 1 0 SHA256)))) b = WOk (len b) [0; 1; 2; 3; 4; 5; 6; 7; 8; 9].
+Proof. exact ConcreteProofs.ex_client_packet. Qed.
+
+(* the same for the FULL instance of the typed decoders (all 38 kinds of Codec/AttrValue.v), no acceptance hypothesis: the
+   vocabulary of the client (SOFTWARE / PRIORITY / USE-CANDIDATE / unregistered application types, USERNAME, USERHASH, REALM,
+   NONCE flavours 0..5, PASSWORD-ALGORITHMS, PASSWORD-ALGORITHM, the integrity attributes, FINGERPRINT) is accepted *)
+Theorem C13_client_packet_bytes_full : forall c is_request app x class method txid,
+  app_wf app -> prepare c is_request app = inl (Some x) ->
+  class < 4 -> method < 4096 -> length txid = 12%nat -> size_ok (flatten x) = true -> forallb full_voc (flatten x) = true ->
+  let typ := msg_type_of method class in
+  let b := packet_bytes typ txid (flatten x) in
+  craft_packet class method txid (flatten x) = Ok b
+  /\ decode dec_ok_full None b = WOk (len b) (positions 0 (length (flatten x)))
+  /\ (forall k, keys_are k (flatten x) = true -> forallb (fun a => negb (is_corrupt a)) (flatten x) = true ->
+      decode dec_ok_full (Some (validating (key_bytes k))) b = WOk (len b) (positions 0 (length (flatten x))))
+  /\ (use_fp (cfg c) = true -> exists pre, flatten x = pre ++ [AFP true] /\ b = encode_with_fp typ txid (final_tlvs typ txid [] pre)).
+Proof. exact ConcreteProofs.client_packet_bytes_full. Qed.
+Print Assumptions C13_client_packet_bytes_full.
+Theorem C13_client_full_voc : forall c is_request app x, prepare c is_request app = inl (Some x) ->
+  forallb full_voc app = true ->
+  (forall s p, mech_ c = MLT s -> lt_pr s = Some p -> snd (p_nonce p) <= 5) ->
+  forallb full_voc (flatten x) = true.
+Proof. exact ConcreteProofs.client_full_voc. Qed.
+Print Assumptions C13_client_full_voc.
